@@ -28,7 +28,7 @@ rows = ["| seed | detected by | rule | was the rule there before the seed was se
 for d in sorted(glob.glob(os.path.join(HERE, "seeded", "*"))):
     m = json.load(open(os.path.join(d, "meta.json")))
     db = m.get("detected_by", {})
-    rows.append("| %s%s | %s | %s | %s |" % (os.path.basename(d), " (round 2)" if m.get("round") == 2 else "", db.get("check") or "— (missed)", db.get("rule") or "—",
+    rows.append("| %s%s | %s | %s | %s |" % (os.path.basename(d), (" (round %d)" % m["round"]) if m.get("round", 1) > 1 else "", db.get("check") or "— (missed)", db.get("rule") or "—",
                                             str(db.get("initially_missed", db.get("why", ""))).replace("|", "/")[:300]))
 D = between(D, "SEEDS", "\n".join(rows) + "\n")
 D = re.sub(r"\n\d+ were genuine and repaired in /repo", "\n%d were genuine and repaired in /repo" % len(k["fixed"]), D)
